@@ -263,7 +263,7 @@ def _l2_conditions(tier, seed):
         for a, b in U.class_pairs(U.ALPHABET):
             if a[0] in sel and b[0] in sel:
                 continue
-            if a[0] in ('cat_b', 'isp_b', 'cat_self', 'isp_self', 'tile') and b[0] in sel:
+            if a[0] in ('cat_b', 'isp_b', 'cat_self', 'isp_self', 'tile', 'isp3') and b[0] in sel:
                 if U.budget((b,)) < 2:
                     add('dict', 1, (a, b))  # a grown dataset under a symbolic selection: keep the quick tier small
                 continue                    # (two symbolic index entries over >= 4 examples: thorough tier)
